@@ -45,7 +45,7 @@ def describe(tier):
         'bounds': 'lengths 0..8 exhaustive, 9..300 boundary+DRBG values',
         'assumptions': ['and/or/xor of different lengths are right-aligned (zero-extended on the left) in the model',
                         'negative integer indices, __setitem__ and int right operands are outside the property (DESIGN 4/C18)'],
-        'must_be_nonzero': ['ctor-nolength', 'concat', 'slice', 'half', 'compose-first'],
+        'must_be_nonzero': ['ctor-nolength', 'concat', 'slice', 'half-left', 'half-int-left', 'compose-first'],
     }
 
 
